@@ -311,4 +311,57 @@ Section Deep.
       rewrite bool_decide_eq_false_2 by exact Em. rewrite E1. cbn [run mem_meta m_type].
       injection Hva as <-. unfold absf. destruct (f_type f); reflexivity.
   Qed.
+  (** ** remove_file on a file the overlay shows - in whichever layer: exactly that entry vanishes from
+      the view.  [no_collision]: no directory on the way to p's marker is itself the marker path of
+      some entry; it fails exactly when an ancestor's name ends in the marker suffix (finding D28) *)
+  Definition no_collision (p : path) : Prop := forall q, marker q ∉ prefixes (removelast (marker p)).
+
+  Theorem remove_file_deep (s0 s1 : mstate) hs (p : path) (b : list N) :
+    wf s0 -> p <> [] -> user_path p -> no_collision p ->
+    (is_Some (s0 !! p) -> s0 !! marker p = None) ->
+    view s0 s1 p = Some (NFile b) ->
+    Forall (not_file s0) (prefixes (removelast (marker p))) ->
+    exists s0',
+      run bhandler (ovl_impl top lower (CRemoveFile p)) (S2 s0 s1 hs) = (S2 s0' s1 (hs ++ [HClosed]), Ok tt) /\ wf s0' /\
+      forall q, user_path q -> view s0' s1 q = if decide (q = p) then None else view s0 s1 q.
+  Proof.
+    intros Hwf Hp Hup Hnc Hinv Hv Hfree.
+    assert (Hmne : marker p <> p) by (apply user_marker_ne; exact Hup).
+    assert (Hmnil : marker p <> []) by (unfold whiteout_path; destruct (reverse p); discriminate).
+    assert (Hframe : forall s0', s0' !! p = None -> is_Some (s0' !! marker p) ->
+               (forall q, q <> p -> q ∉ prefixes (marker p) -> s0' !! q = s0 !! q) ->
+               forall q, user_path q -> view s0' s1 q = if decide (q = p) then None else view s0 s1 q).
+    { intros s0' Hgone Hmark Hsame q [Hqh Hqn]. unfold view. destruct (decide (q = p)) as [->|Hne].
+      - rewrite Hgone. rewrite bool_decide_eq_true_2 by exact Hmark. reflexivity.
+      - assert (Hq1 : q ∉ prefixes (marker p)).
+        { intros Hin. apply prefixes_head in Hin. rewrite marker_head in Hin. congruence. }
+        assert (Hq2 : marker q ∉ prefixes (marker p)).
+        { intros Hin. apply prefixes_cases in Hin as [Hin|Hin]; [exact (Hnc q Hin)| |exact Hmnil].
+          apply Hne. apply (whiteout_path_inj top q p); [exact Hqn|apply Hup|exact Hin]. }
+        assert (Hq3 : marker q <> p) by (intros E; destruct Hup as [Hh _]; rewrite <- E, marker_head in Hh; congruence).
+        rewrite (Hsame q Hne Hq1), (Hsame (marker q) Hq3 Hq2). reflexivity. }
+    assert (Hpnot : p ∉ prefixes (removelast (marker p))).
+    { intros Hin.
+      assert (Hrl : removelast (marker p) <> []) by (intros E; rewrite E in Hin; cbn in Hin; inversion Hin).
+      apply prefixes_head in Hin. destruct Hup as [Hh _].
+      rewrite (removelast_head _ Hrl), marker_head in Hin. congruence. }
+    unfold view in Hv. destruct (s0 !! p) as [g|] eqn:E0.
+    - (* the write layer has the file (the lower layer may have one too) *)
+      injection Hv as Hv. assert (Hg : f_type g = File) by (unfold absf in Hv; destruct (f_type g); [reflexivity|discriminate]).
+      assert (Hwo : s0 !! marker p = None) by (apply Hinv; eauto).
+      destruct (remove_shadowing_file_sets_marker lg ft s0 s1 hs p g Hwf Hp Hwo E0 Hg Hmne Hfree Hpnot)
+        as (s0' & Hrun & Hgone & Hmark & Hsame & Hwf').
+      exists s0'. split; [exact Hrun|]. split; [exact Hwf'|]. apply Hframe; auto.
+    - case_bool_decide as Em; [discriminate|].
+      assert (Hwo : s0 !! marker p = None) by (destruct (s0 !! marker p) eqn:E; [exfalso; apply Em; eauto|reflexivity]).
+      assert (Hlow : is_Some (s1 !! p)) by (destruct (s1 !! p); [eauto|discriminate]).
+      destruct (remove_lower_file_sets_marker lg ft s0 s1 hs p Hwf Hp Hwo E0 Hlow Hfree) as (s0' & Hrun & Hmark & Hsame & Hwf').
+      exists s0'. split; [exact Hrun|]. split; [exact Hwf'|]. apply Hframe; auto.
+      + rewrite Hsame; [exact E0|]. intros Hin. apply prefixes_head in Hin. destruct Hup as [Hh _]. rewrite marker_head in Hin. congruence.
+  Qed.
+  (** the hypothesis is not decoration: it fails for /a_wo/x, because of /a (finding D28) *)
+  Lemma collision_example : ~ no_collision [[97%N] ++ wo_suffix; [120%N]].
+  Proof.
+    intros H. apply (H [[97%N]]). vm_compute. apply elem_of_list_In. right. left. reflexivity.
+  Qed.
 End Deep.
